@@ -4,6 +4,7 @@ import (
 	"bytes"
 	"encoding/hex"
 	"fmt"
+	"github.com/ipld/go-ipld-prime/multicodec"
 	"io"
 	"math"
 	"strings"
@@ -272,11 +273,28 @@ func c03Check(c *fw.Ctx, in []byte, cfg c03cfg, withRecorder bool) bool {
 	// one byte at a time, or with the last bytes delivered together with io.EOF. What a decoder accepts must
 	// not depend on how the bytes arrive.
 	var rd io.Reader = bytes.NewReader(in)
+	// the strict and the no-links configurations are reached through the package functions and, for every third
+	// input, through the decoders the multicodec registry hands out for 0x71 and 0x51 (what a LinkSystem uses):
+	// the two entry points must be the same decoder (round-4 seed C03-11 registered the link-accepting decoder
+	// for plain CBOR)
+	viaRegistry := fw.HashString(string(in))%3 == 0
 	decode := func(na datamodel.NodeAssembler) error {
 		if cfg.name == "strict-nolinks" {
+			if viaRegistry {
+				if d, err := multicodec.LookupDecoder(0x51); err == nil {
+					c.Count("decodes_via_registry", 1)
+					return d(na, rd)
+				}
+			}
 			return cbor.Decode(na, rd)
 		}
 		if cfg.name == "strict" {
+			if viaRegistry {
+				if d, err := multicodec.LookupDecoder(0x71); err == nil {
+					c.Count("decodes_via_registry", 1)
+					return d(na, rd)
+				}
+			}
 			return dagcbor.Decode(na, rd)
 		}
 		return cfg.opt.Decode(na, rd)
